@@ -1173,6 +1173,8 @@ class DAG(nx.DiGraph):
             bn = self
         else:
             bn = BayesianNetwork(self.edges())
+            # Variables without any edge get a CPD as well.
+            bn.add_nodes_from(self.nodes())
 
         if estimator is None:
             estimator = MaximumLikelihoodEstimator
